@@ -30,8 +30,15 @@ def run_c11(tier, seed, replay):
     c2, d2, s2, st2 = vlib.collect_runs(v, res2)
     distinct |= d2
     stats["asan_pass"] = dict(evaluations=int(c2.get("evaluations", 0)), **st2)
-    v.coverage.update(evaluations=int(counters.get("evaluations", 0)) + int(c2.get("evaluations", 0)), distinct_nontrivial=len(distinct),
-                      rule="seeded random programs of 3-25 operations over the real Async API (create int/void promises; then with value-, string-, void- and promise-returning continuations x ignore/rethrow/custom rejection handlers, attached before or after settlement; whenAll/whenAny over 1-4 inputs; iterator whenAll; resolve/reject of any pending root incl. inputs of already-settled combinators), each checked against a sequential reference model of the statement (call counts, values, exception identity, final states; abstains where the statement is silent). distinct = distinct program texts",
+    # the inputs of one combinator settled by different threads at the same instant (free-running, under ThreadSanitizer)
+    tbin = vlib.build_harness("coopmain", "tsan", opt="-O1")
+    res3 = vlib.run_resumable(tbin, ["--prop", "c11mt", "--mode", "free", "--seed", str(seed + 5), "--cases", str(1500 if tier == "quick" else 150000), "--spin", "30"], max(2, vlib.NCPU // 3),
+                              timeout=300 if tier == "quick" else 7200, work=work, env=vlib.SAN_ENV_EXPLORE, tag="t")
+    c3, d3, s3, st3 = vlib.collect_runs(v, res3, judge_report=lambda rep: rep["tool"] != "tsan" or rep.get("in_repo"))
+    distinct |= d3
+    stats["combinator_inputs_settled_by_different_threads"] = dict(rounds=int(c3.get("evaluations", 0)), counts=c3.get("counts", {}), **st3)
+    v.coverage.update(evaluations=int(counters.get("evaluations", 0)) + int(c2.get("evaluations", 0)) + int(c3.get("evaluations", 0)), distinct_nontrivial=len(distinct),
+                      rule="seeded random programs of 3-25 operations over the real Async API (create int/void promises; then with value-, string-, void- and promise-returning continuations x ignore/rethrow/custom rejection handlers, attached before or after settlement; whenAll/whenAny over 1-4 inputs; iterator whenAll; resolve/reject of any pending root incl. inputs of already-settled combinators), each checked against a sequential reference model of the statement (call counts, values, exception identity, final states; abstains where the statement is silent); plus 6 scenarios in which the inputs of one all-of / any-of combinator are settled by different threads at the same instant (variadic and iterator all-of with a value type whose copy takes a while, any-of, fulfilment against rejection), judged by continuation counts, slot values and ThreadSanitizer. distinct = distinct program texts",
                       samples=samples[:6], monitor_counts=counters.get("counts", {}), **stats)
     v.assumptions += ["same-promise re-entrancy from inside its own callback is not generated (self-deadlock on a non-recursive mutex by construction)",
                       "the exception a combinator rejects with, and what a non-rethrowing handler passes downstream, are not judged (statement silent)"]
